@@ -177,16 +177,18 @@ class ExcelInPython:
         
     @staticmethod
     def _regexp(pattern: str):
-        pattern_flags = r'(?<![~])[?]+|[*]+'
-        for item in re.finditer(pattern_flags, pattern):
-            match item:
-                case item if '?' in item.group():
-                    pattern = pattern.replace(item.group(), '.' + '{{' + str(item.span()[1]-item.span()[0]) + '}}', 1)
-                case item if '*' in item.group():
-                    pattern = pattern.replace(item.group(), '.*', 1)
-        pattern = re.sub(r'(?<=~)[?*]', r'\\\\\g<0>', pattern)
-        pattern = re.sub(r'[\[\]]', r'\\\\\g<0>', pattern)
-        return pattern
+        def convert(item):
+            run = item.group()
+            if run[0] == '~':
+                # ~? ~* ~~ stand for the character itself, a lone tilde for a tilde
+                return re.escape(run[-1])
+            if run[0] == '?':
+                return '.' * len(run)
+            if run[0] == '*':
+                return '.*'
+            return re.escape(run)
+
+        return re.sub(r'~[?*~]|~|[?]+|[*]+|[^?*~]+', convert, pattern)
 
     @staticmethod
     def _binary_search(arr: List, lookup_value: any, reverse: bool = False):
